@@ -206,7 +206,10 @@ def valid_server_name(config: Config, request: "Request") -> bool:
     host = ""
     for name, value in request.headers:
         if name.lower() == b"host":
-            host = value.decode()
+            try:
+                host = value.decode()
+            except UnicodeDecodeError:
+                return False  # Cannot be any of the (str) server names
             break
     return host in config.server_names
 
